@@ -204,7 +204,9 @@ class Ctx(object):
     def finish(self, explanation, level='other'):
         known = load_known()
         wall = time.time() - self.t0
-        rep_dir = os.path.join(VERIF, 'reports', self.pid)
+        # a run against another tree (VERIF_REPO: seeded-change matrices, negative controls) must not overwrite the evidence of /repo
+        out_root = VERIF if os.path.realpath(facts.REPO) == '/repo' else os.path.join(facts.CACHE, 'alt-' + re.sub(r'[^A-Za-z0-9]+', '_', os.path.realpath(facts.REPO)))
+        rep_dir = os.path.join(out_root, 'reports', self.pid)
         os.makedirs(rep_dir, exist_ok=True)
         for f in os.listdir(rep_dir):
             try:
@@ -265,8 +267,8 @@ class Ctx(object):
             'wall_s': round(wall, 3),
             'violations': n_new,
         }
-        os.makedirs(os.path.join(VERIF, 'evidence'), exist_ok=True)
-        with open(os.path.join(VERIF, 'evidence', '%s.json' % self.pid), 'w', encoding='utf-8') as fh:
+        os.makedirs(os.path.join(out_root, 'evidence'), exist_ok=True)
+        with open(os.path.join(out_root, 'evidence', '%s.json' % self.pid), 'w', encoding='utf-8') as fh:
             json.dump(ev, fh, ensure_ascii=False, indent=1, default=str)
         out = []
         out.append('== %s tier=%s: %d obligations, %d discharged, %d points, %d known finding(s), %d new violation(s), %.1fs'
